@@ -4,7 +4,7 @@
 (* and flows beyond the exhaustive bounds (real-valued edges and           *)
 (* coordinates are replaced by their ranks per dimension):                 *)
 (*   [edges, kind, flow, hists (nested bins of every histogram yielded),   *)
-(*    iter (edges of the cells in the order IterateBins yields them)]      *)
+(*    iter (edges of the cells IterateBins yields, sorted)]                *)
 (***************************************************************************)
 EXTENDS SplitIntoBinsSem, IOUtils
 Trace == JsonDeserialize(IOEnv.TRACE_FILE)
